@@ -13,8 +13,8 @@
    inferred verdicts), the always-safe deletion (modelled for the correspondence, excluded from the theorem by
    r_nodel = true). *)
 From Coq Require Import List Bool Arith.
-From NM Require Import Engine EngineSpec MiniGo Flow Guard.
-From NP Require Import EngineMain FlowProofs GuardProofs WholeProofs.
+From NM Require Import Engine EngineSpec MiniGo Flow Guard Nonce.
+From NP Require Import EngineMain FlowProofs GuardProofs WholeProofs NonceProofs.
 Import ListNotations.
 
 (* a program using the convention that analyses clean never panics -- in particular not on a guarded result *)
@@ -75,3 +75,25 @@ Example C08_reported_programs_panic :
   panic_of (run_program ex_err_callee_bad 20 [true]) = Some 1 /\
   panic_of (run_program ex_err_overwritten 20 [true]) = Some 1.
 Proof. exact err_reported_programs_panic. Qed.
+
+(* ---- the guard-nonce sets (model M11 = guard/guard.go, tied by a correspondence on random operation sequences) ----
+   The guards of a consume trigger are a set of nonces; the fixpoint iteration compares them with Eq, joins intersect
+   them.  Eq is extensional equality, so a trigger that LOST a guard at a join is a change the iteration sees. *)
+Theorem C08_nonce_eq_is_set_equality : forall g o, ns_eq g o = true <-> (forall x, In x g <-> In x o).
+Proof. exact eq_spec. Qed.
+Print Assumptions C08_nonce_eq_is_set_equality.
+Theorem C08_nonce_eq_detects_a_lost_guard : forall g n, In n g -> ns_eq (ns_remove g [n]) g = false.
+Proof. exact eq_detects_loss. Qed.
+Theorem C08_nonce_intersection : forall g os x, In x (ns_inter g os) <-> In x g /\ (forall o, In o os -> In x o).
+Proof. exact inter_spec. Qed.
+Theorem C08_nonce_union : forall os g x, In x (ns_union g os) <-> In x g \/ (exists o, In o os /\ In x o).
+Proof. exact union_spec. Qed.
+Theorem C08_nonce_subset : forall g o, ns_subset g o = true <-> (forall x, In x g -> In x o).
+Proof. exact subset_spec. Qed.
+Theorem C08_nonce_add_remove : forall ns g x,
+  (In x (ns_add g ns) <-> In x ns \/ In x g) /\ (In x (ns_remove g ns) <-> In x g /\ ~ In x ns).
+Proof. intros; split; [apply add_spec|apply remove_spec]. Qed.
+Example C08_nonce_example :
+  nrun [[]; []; []] [OAdd 0 [1; 2; 3]; OAdd 1 [2; 3; 4]; OInter 2 0 [1]; OEq 2 0; OSubset 2 0; ORemove 0 [1]; OEq 2 0; OContains 1 4]
+  = ([[2; 3]; [2; 3; 4]; [2; 3]], [false; true; true; true]).
+Proof. exact nonce_example. Qed.
